@@ -791,11 +791,11 @@ class Container:
             volume_to_transfer = Unit.convert_to_storage(quantity_to_transfer, 'L')
             volume_to_transfer = round(volume_to_transfer, config.internal_precision)
 
-            if volume_to_transfer > source_container.volume:
+            if _exceeds(volume_to_transfer, source_container.volume):
                 raise ValueError(f"Not enough mixture left in source container ({source_container.name}). " +
                                  f"Only {Unit.convert_from_storage(source_container.volume, 'mL')} mL available, " +
                                  f"{Unit.convert_from_storage(volume_to_transfer, 'mL')} mL needed.")
-            ratio = volume_to_transfer / source_container.volume
+            ratio = min(volume_to_transfer / source_container.volume, 1.0) if source_container.volume else 0.0
 
         elif unit == 'g':
             mass_to_transfer = round(quantity_to_transfer, config.internal_precision)
